@@ -70,9 +70,14 @@ static SINK_LOGGER: SinkLogger = SinkLogger;
 
 pub fn maybe_install_logger() {
     if std::env::var("ZVT_HARNESS_LOG").map(|v| v == "1").unwrap_or(false) {
-        let _ = log::set_logger(&SINK_LOGGER);
-        log::set_max_level(log::LevelFilter::Trace);
+        install_logger();
     }
+}
+
+/// unconditionally (the sequence, transport and client harnesses: their case counts are small)
+pub fn install_logger() {
+    let _ = log::set_logger(&SINK_LOGGER);
+    log::set_max_level(log::LevelFilter::Trace);
 }
 
 pub fn silence_panics() {
